@@ -104,7 +104,7 @@ Definition witness (p : path) : ty * Z :=
   | PGlobalArr => (tiny, 128)
   | PAssignFromElemN | PReturnElemN => (tint, 4294967296)
   | PAssignHint _ | PDeclMulti _ => (tiny, -1)
-  | PDeclTypedefTernary | PArrCopy | PArrLitAssign1 | PArrLitAssignN | PMember | PIndirect => (tiny, 128)
+  | PDeclTypedefTernary | PArrCopy | PArrLitAssign1 | PArrLitAssignN | PMemberLit | PIndirect => (tiny, 128)
   | PStaticAssign | PElem1Global => (utiny, -1)
   | _ => (tiny, 0)
   end.
@@ -232,19 +232,40 @@ Lemma whole_array_store_is_checked_refuted_l :
   mech_store PElem1Global utiny 200 = Fail ERange.
 Proof. vm_compute. auto 10. Qed.
 
-(* struct members, pointers, references (outside CbCore): what is stored is the value itself - clamped for an unsigned member that is
-   assigned directly - so a value the type admits is stored exactly and an out-of-range one is kept instead of being an error *)
+(* struct members (outside CbCore).  A direct member store - s.m = e, s.m op= e, s.m++, s.a[i] = e, a member of an instantiated
+   generic struct - is the demanded conversion for every type and value since fix a3f0b3d *)
+Lemma member_store_is_checked_l t v : mech_store PMember t v = coerce t v.
+Proof. apply clamp_check_is_coerce_l. Qed.
+
+(* what the fix does not cover: struct literals (unsigned clamp only) and nested members / members reached through a pointer, a
+   reference, self or an element of a struct array / pointer and reference stores (nothing).  What is stored is the value itself -
+   clamped for an unsigned member initialised by a literal - so a value the type admits is stored exactly and an out-of-range one is
+   kept instead of being an error *)
 Lemma member_store_l t v :
-  (in_range t v = true -> (uns t = true -> 0 <= v) -> mech_store PMember t v = coerce t v /\ mech_store PIndirect t v = coerce t v) /\
-  (uns t = true -> v < 0 -> mech_store PMember t v = coerce t v) /\
-  (in_range t v = false -> (uns t = false \/ 0 <= v) -> mech_store PMember t v = Val v /\ mech_store PIndirect t v = Val v /\ coerce t v = Fail ERange).
+  (in_range t v = true -> (uns t = true -> 0 <= v) -> mech_store PMemberLit t v = coerce t v /\ mech_store PIndirect t v = coerce t v) /\
+  (uns t = true -> v < 0 -> mech_store PMemberLit t v = coerce t v /\ mech_store PIndirect t v = Val v /\ coerce t v = Val 0) /\
+  (in_range t v = false -> (uns t = false \/ 0 <= v) -> mech_store PMemberLit t v = Val v /\ mech_store PIndirect t v = Val v /\ coerce t v = Fail ERange).
 Proof.
   cbn [mech_store]. rewrite mech_clamp_is_spec_l. unfold coerce. split; [|split].
   - intros H H0. assert (E : uns t && (v <? 0) = false).
     { destruct (uns t) eqn:U; [|reflexivity]. cbn [andb]. apply Z.ltb_ge. apply H0. reflexivity. }
     rewrite E, H. split; reflexivity.
-  - intros U Hv. rewrite U. apply Z.ltb_lt in Hv. rewrite Hv. reflexivity.
+  - intros U Hv. rewrite U. apply Z.ltb_lt in Hv. rewrite Hv. repeat split; reflexivity.
   - intros H Hu. assert (E : uns t && (v <? 0) = false).
     { destruct Hu as [U|Hv]; [rewrite U; reflexivity|]. apply Z.ltb_ge in Hv. rewrite Hv. apply andb_false_r. }
     rewrite E, H. repeat split; reflexivity.
 Qed.
+
+Definition tshort := mk TShort false.
+Definition ushort := mk TShort true.
+Lemma struct_literal_is_checked_refuted_l :
+  mech_store PMemberLit tiny 200 = Val 200 /\ coerce tiny 200 = Fail ERange /\
+  mech_store PMemberLit utiny 256 = Val 256 /\ coerce utiny 256 = Fail ERange /\
+  mech_store PMemberLit utiny (-5) = Val 0 /\ coerce utiny (-5) = Val 0 /\
+  mech_store PMember tiny 200 = Fail ERange /\ mech_store PMember utiny 256 = Fail ERange.
+Proof. vm_compute. auto 10. Qed.
+Lemma indirect_member_store_is_checked_refuted_l :
+  mech_store PIndirect tshort 40000 = Val 40000 /\ coerce tshort 40000 = Fail ERange /\
+  mech_store PIndirect tiny 200 = Val 200 /\ coerce tiny 200 = Fail ERange /\
+  mech_store PIndirect ushort (-2) = Val (-2) /\ coerce ushort (-2) = Val 0.
+Proof. vm_compute. auto 10. Qed.
